@@ -826,10 +826,126 @@ def check_C17(tier, seed):
         rp.add_inconclusive("too few histories compared (%d)" % n_hist)
     return rp.finish()
 
+ACC_TABLE = [
+    # (call, description, flags)
+    (1, "V(n)", ["ACC_DEF"]), (1, "V(n)", ["ACC_DEF", "ACC_MOVE"]), (1, "V(n)", ["ACC_DEF", "ACC_COPY"]),
+    (2, "resize(n)", ["ACC_DEF", "ACC_MOVE"]), (2, "resize(n)", ["ACC_DEF", "ACC_COPY"]),
+    (3, "push_back(const&)", ["ACC_COPY"]), (3, "push_back(const&)", ["ACC_COPY", "ACC_MOVE"]),
+    (4, "emplace_back/push_back(&&)", ["ACC_MOVE"]), (4, "emplace_back/push_back(&&)", ["ACC_COPY"]),
+    (5, "reserve/shrink_to_fit", ["ACC_MOVE"]), (5, "reserve/shrink_to_fit", ["ACC_COPY"]),
+    (6, "V(first,last) forward", []), (6, "V(first,last) forward", ["ACC_MOVE"]),
+    (7, "V(n,x)", ["ACC_COPY"]), (8, "V(const V&)", ["ACC_COPY"]), (9, "V(n); pop_back; clear", ["ACC_DEF"]),
+    (10, "resize(n,x)", ["ACC_COPY"]), (11, "erase", ["ACC_MOVE", "ACC_MASSIGN"]), (11, "erase", ["ACC_COPY", "ACC_CASSIGN"]),
+    (12, "insert(pos,&&)/emplace", ["ACC_MOVE", "ACC_MASSIGN"]), (13, "assign(n,x)/insert(pos,n,x)", ["ACC_COPY", "ACC_CASSIGN"]),
+    (14, "V(V&&); v = V&&", ["ACC_MOVE", "ACC_MASSIGN"]), (15, "assign/insert forward range", ["ACC_MOVE", "ACC_MASSIGN"]),
+    (15, "assign/insert forward range", ["ACC_COPY", "ACC_CASSIGN"]), (16, "swap", ["ACC_MOVE", "ACC_MASSIGN"]),
+    (17, "emplace_back(int)", ["ACC_MOVE"]), (18, "v = const V&", ["ACC_COPY", "ACC_CASSIGN"]),
+]
+
+
+def check_C13(tier, seed):
+    rp = Report("C13", tier, seed, "exploration")
+    rp.rule = ("(1) twin replay: the same seed-derived histories run on small_vector<int>, <trivially copyable struct> and <non-trivial struct with the same value> (std::allocator and a ledger allocator, N pairs (2,5) (0,3) (4,1) (8,8)); "
+               "the full observation traces (op, exception, returned offset, size, capacity, inlined, every element) must have identical digests; (2) bytes: ASan + ledger red zones on all of it; "
+               "(3) conversion matrix: ~90 (From,To) cells over same/different-width integrals, char kinds, bool, enums with several underlying types, float/double, pointers (Derived*->second base, virtual base, cv, void*) x "
+               "{emplace_back, emplace, generator ctor, range ctor/assign/insert/append} x {From*, const From*, std::vector/std::list/small_vector iterators, move_iterator, reverse(reverse), input iterator}: every stored element must "
+               "equal static_cast<To>(source); (4) acceptance: minimal-requirement archetypes per operation, compiled as a trivially copyable variant and a non-trivial twin: whenever the twin is accepted the trivially copyable "
+               "variant must be too, and every matrix cell must compile; tuple = (From->To, size relation, triviality) / twin id / probe id")
+    # ---- (3) conversion matrix
+    parts = (1, 4, 7) if tier == "quick" else (1, 2, 3, 4, 5, 6, 7, 8)
+    jobs = []
+    for part in parts:
+        jobs.append({"src": "conv.cpp", "cc": "g++", "flags": ["-std=c++17", "-O0", "-g1", "-fsanitize=address,undefined", "-fno-sanitize-recover=all"], "defines": {"CONV_PART": part},
+                     "args": [], "name": "conv/part%d/g++17" % part, "config_class": "g++17", "compile_failure_is_violation": True})
+    for part in ((7,) if tier == "quick" else parts):
+        jobs.append({"src": "conv.cpp", "cc": "g++", "flags": ["-std=c++20", "-O0", "-g1", "-fsanitize=address,undefined", "-fno-sanitize-recover=all"], "defines": {"CONV_PART": part},
+                     "args": [], "name": "conv/part%d/g++20" % part, "config_class": "g++20", "compile_failure_is_violation": True})
+    if tier != "quick":
+        for part in parts:
+            jobs.append({"src": "conv.cpp", "cc": "clang++", "flags": ["-std=c++20", "-O1", "-g1", "-fsanitize=address,undefined", "-fno-sanitize-recover=all", "-fno-sanitize=object-size"],
+                         "defines": {"CONV_PART": part}, "args": [], "name": "conv/part%d/clang20" % part, "config_class": "clang20", "compile_failure_is_violation": True})
+            jobs.append({"src": "conv.cpp", "cc": "g++", "flags": ["-std=c++11", "-O2", "-DNDEBUG", "-fsanitize=address,undefined", "-fno-sanitize-recover=all"],
+                         "defines": {"CONV_PART": part}, "args": [], "name": "conv/part%d/g++11rel" % part, "config_class": "g++11rel", "compile_failure_is_violation": True})
+    run_simple_engines(rp, "C13", "conv", jobs)
+    # ---- (1)+(2) twin replay
+    tw = []
+    for cc, fl, nm in (("g++", ["-std=c++17", "-O1", "-g1", "-fsanitize=address,undefined", "-fno-sanitize-recover=all", "-D_GLIBCXX_ASSERTIONS"], "g++17-dbg"),
+                       ("g++", ["-std=c++20", "-O2", "-g1", "-DNDEBUG", "-fsanitize=address,undefined", "-fno-sanitize-recover=all"], "g++20-rel")) + \
+                      ((("clang++", ["-std=c++17", "-O1", "-g1", "-fsanitize=address,undefined", "-fno-sanitize-recover=all", "-fno-sanitize=object-size"], "clang17"),) if tier != "quick" else ()):
+        tw.append((cc, fl, nm))
+    specs = [{"src": "xstd.cpp", "cc": cc, "flags": fl, "defines": {"XSTD_TWIN": None}, "name": "xstd"} for cc, fl, _ in tw]
+    bins = build_many(specs)
+    cmds, meta = [], []
+    nsh = 2 if tier == "quick" else 8
+    cases = 150 if tier == "quick" else 4000
+    for (cc, fl, nm), b in zip(tw, bins):
+        if isinstance(b, BuildError):
+            rp.add_inconclusive("twin harness build failed (%s): %s" % (nm, b.diag[-800:]))
+            continue
+        for sh in range(nsh):
+            cmds.append([b, "--twin", "--seed", str(seed + 31 * sh), "--cases", str(cases // nsh), "--len", "50"])
+            meta.append(nm)
+    twins = 0
+    for res, nm in zip(run_many(cmds, timeout=3000), meta):
+        if res["rc"] != 0 or res["timeout"]:
+            rp.add_violation("twin|C13|run-died|%s" % nm, "twin replay died (rc %s): %s" % (res["rc"], svlib.san_summary(res["err"])), {"engine": "twin", "replay_cmd": res["cmd"]})
+            continue
+        for line in res["out"].splitlines():
+            if line.startswith('{"type":"twin"'):
+                d = json.loads(line)
+                twins += 1
+                rp.coverage["tuples"]["twin|%s|%s" % (nm, d["id"].split(".")[1])] = rp.coverage["tuples"].get("twin|%s|%s" % (nm, d["id"].split(".")[1]), 0) + 1
+                if not (d["int"] == d["triv"] == d["nontriv"]):
+                    rp.add_violation("twin|C13|digest-mismatch|%s" % ("triv" if d["int"] != d["triv"] else "nontriv"),
+                                     "history %s (%s): int / trivially copyable struct / non-trivial struct traces differ: %s %s %s" % (d["id"], nm, d["int"], d["triv"], d["nontriv"]),
+                                     {"engine": "twin", "replay_cmd": res["cmd"] + ["--trace-history", d["id"]]})
+            elif line.startswith('{"type":"violation"'):
+                d = json.loads(line)
+                rp.add_violation("twin|" + d["key"], d["msg"], {"engine": "twin", "replay_cmd": res["cmd"]})
+    rp.coverage["counters"]["twin-histories"] = twins
+    rp.coverage["evaluations"] += twins * 3
+    # ---- (4) acceptance probes
+    pspecs, pmeta = [], []
+    stds = ("c++17", "c++20") if tier == "quick" else ("c++11", "c++14", "c++17", "c++20", "c++23")
+    for std in stds:
+        for call, desc, flags in ACC_TABLE:
+            for n in ((3,) if tier == "quick" else (0, 3)):
+                for vec in (0, 1):
+                    if vec and n == 0:
+                        continue
+                    for triv in (1, 0):
+                        d = {"ACC_CALL": call, "ACC_TRIVIAL": triv, "ACC_VEC": vec, "ACC_N": n}
+                        for f in flags:
+                            d[f] = None
+                        pspecs.append({"src": "accept.cpp", "cc": "g++", "flags": ["-std=" + std, "-O0", "-fsyntax-only"], "defines": d, "name": "acc.o", "link": False})
+                        pmeta.append((std, call, desc, tuple(flags), n, vec, triv))
+    t0 = time.time()
+    pres = build_many(pspecs)
+    log("[C13] compiled %d acceptance probes in %.1fs" % (len(pres), time.time() - t0))
+    table = {}
+    for m, r in zip(pmeta, pres):
+        table[m] = r
+    probes = 0
+    for (std, call, desc, flags, n, vec, triv), r in table.items():
+        if vec or triv == 0:
+            continue
+        probes += 1
+        twin = table[(std, call, desc, flags, n, 0, 0)]
+        ok_triv, ok_twin = not isinstance(r, BuildError), not isinstance(twin, BuildError)
+        rp.coverage["tuples"]["accept|%s|%s|N%d|%s|%s" % (std, desc, n, "+".join(flags) or "none", "ok" if ok_triv else "rejected-both" if not ok_twin else "REJECTED")] = 1
+        if ok_twin and not ok_triv:
+            rp.add_violation("accept|C13|trivial-variant-rejected|%s|%s" % (desc, "+".join(flags) or "none"),
+                             "%s on small_vector<T,%d> (%s): accepted for the non-trivial archetype {%s} but rejected for its trivially copyable twin: %s" % (desc, n, std, ", ".join(flags) or "no special members", r.diag[-1500:]),
+                             {"engine": "accept", "replay_cmd": ["false"], "call": call, "flags": list(flags), "std": std})
+    rp.coverage["counters"]["acceptance-probes"] = probes
+    floor(rp, "twin-histories", 100, "twin histories compared")
+    floor(rp, "acceptance-probes", 40, "acceptance probes compiled")
+    return rp.finish()
+
 
 CHECKS = {
     "C01": check_C01, "C02": check_C02, "C03": check_C03, "C04": check_C04, "C05": check_C05, "C06": check_C06,
-    "C07": check_C07, "C09": check_C09, "C10": check_C10, "C11": check_C11, "C15": check_C15, "C12": check_C12, "C14": check_C14, "C16": check_C16, "C17": check_C17, "C18": check_C18, "C19": check_C19, "C20": check_C20,
+    "C07": check_C07, "C09": check_C09, "C10": check_C10, "C11": check_C11, "C15": check_C15, "C12": check_C12, "C13": check_C13, "C14": check_C14, "C16": check_C16, "C17": check_C17, "C18": check_C18, "C19": check_C19, "C20": check_C20,
 }
 
 
